@@ -60,6 +60,52 @@ def clause_table(results):
     return table
 
 
+CTOR_NAME = {"rep": "construct_repetition_code_circuit", "simplified": "construct_repetition_code_circuit_simplified",
+             "multi": "construct_repetition_code_multi_round_circuit", "cal": "construct_calibration_circuit"}
+
+
+def c10_durations(tier, seed):
+    """dump real relation graphs (/venv), prove no-overlap for ALL positive durations per structure (z3), replay every
+    counter-example natively (/venv); returned in the shape of a prover result"""
+    t0 = time.time()
+    gpath = os.path.join(ROOT, "build", "C10.graphs.json")
+    dpath = os.path.join(ROOT, "build", "C10.durations.json")
+    res = {"name": "no_overlap_for_all_durations (per real relation graph)", "status": "ok", "reason": "", "obligations": [],
+           "trusted": ["the relation equations are the proved contracts of C01 (get_start_time, latest-of-group) and C04 (span)"],
+           "inlined": [], "notes": [], "file": "library/repetition_code/circuit_constructors.py, state_calibration/circuit_constructors.py",
+           "lineno": 0, "sha": "", "dropped": [], "seconds": 0, "paths": 0, "contract_name": ""}
+    p = sh([VENV_PY, os.path.join(ROOT, "bounded", "c10_graphs.py"), "--tier", tier, "--seed", str(seed), "--out", gpath], 1800)
+    if p.returncode != 0:
+        res["status"], res["reason"] = "engine_error", (p.stdout + p.stderr)[-500:]
+        return res
+    p = subprocess.run(["python3-vt", os.path.join(ROOT, "pyvc", "c10_durations.py"), gpath, dpath, "30" if tier == "quick" else "120"],
+                       cwd=ROOT, capture_output=True, text=True, timeout=3600)
+    if p.returncode != 0:
+        res["status"], res["reason"] = "engine_error", (p.stdout + p.stderr)[-500:]
+        return res
+    sh([VENV_PY, os.path.join(ROOT, "bounded", "c10_graphs.py"), "--confirm", dpath], 1800)
+    with open(dpath) as fh:
+        d = json.load(fh)
+    for r in d["results"]:
+        ctor = CTOR_NAME.get(r.get("ctor"), str(r.get("ctor")))
+        rec = {"kind": "durations", "path": r.get("phase", ""), "backend": "z3-5.1(api, linear real arithmetic)", "ms": int(1000 * r.get("seconds", 0)),
+               "desc": f"no two channel-sharing operations overlap for ALL positive readout/microwave/flux/reset durations: {r['id'][:160]}"}
+        if r["verdict"] == "proved":
+            rec.update(id=f"C10:no-overlap-for-all-durations:{ctor}:{r.get('flag')}:{r.get('phase')}", verdict="proved")
+        elif r["verdict"] == "refuted" and r.get("confirmed"):
+            key = f"C10:{ctor}:{r.get('overlap_kind')}:{r.get('flag')}"
+            rec.update(id=key, verdict="refuted", native_confirmed=True,
+                       model={"durations": r.get("durations"), "pair": r.get("pair")},
+                       witness={"case": r.get("case"), "phase": r.get("phase"), "table": r.get("table"), "observed": r.get("observed")})
+        else:
+            rec.update(id=f"C10:no-overlap-for-all-durations:{ctor}:{r.get('flag')}:{r.get('phase')}", verdict="unknown",
+                       reason=r.get("why") or ("counter-example not reproduced natively" if r["verdict"] == "refuted" else "solver"))
+        res["obligations"].append(rec)
+    res["seconds"] = round(time.time() - t0, 2)
+    res["paths"] = len(d["results"])
+    return res
+
+
 def main():
     ap = argparse.ArgumentParser()
     ap.add_argument("prop")
@@ -90,6 +136,9 @@ def main():
         from pyvc import prove
         prove.EXTRACT_PATH = xpath
         pres = prove.run(prop, tier)
+        # 2a. C10: durations as logical variables over the real relation graphs of enumerated constructor inputs
+        if prop == "C10":
+            pres["results"].append(c10_durations(tier, seed))
         # 2b. replay counter-models / candidate models on the real code
         rres = None
         if any(o["verdict"] != "proved" and "witness" in o for r in pres["results"] for o in r["obligations"]):
